@@ -436,6 +436,8 @@ class TU:
         k = n.get('kind')
         name = n.get('name', '')
         if n.get('explicitlyDeleted'):
+            self.deleted = getattr(self, 'deleted', [])
+            self.deleted.append('%s::%s %s' % ('_'.join(scope), name, n.get('type', {}).get('qualType', '')))
             return
         if n.get('explicitlyDefaulted') == 'default' or n.get('isImplicit'):
             # defaulted special member: recorded as a static fact, emitted member-wise on demand
@@ -1094,6 +1096,8 @@ class Emitter:
             self.names[d['id']] = g
             self.tu.tls_locals = getattr(self.tu, 'tls_locals', [])
             self.tu.tls_locals.append((ct, g))
+            self.tu.storage = getattr(self.tu, 'storage', {})
+            self.tu.storage[g] = 'thread_local' if d.get('tls') else 'static'
             self.w('/* function-local thread_local %s: per-thread global, constructed on first use */' % d['name'], ind)
             self.w('if (!%s_constructed) { %s = %s; %s_constructed = 1; }' % (g, g, self.expr(init), g), ind)
             return
@@ -1896,6 +1900,8 @@ def extract(src, incs, defs, symbolic=(), extra_flags=(), only_main_and_headers=
         else:
             ct = tu.types.c(qt, n)
             note = ' /* thread_local: the instance of the current thread */' if n.get('tls') else ''
+            tu.storage = getattr(tu, 'storage', {})
+            tu.storage[g] = 'thread_local' if n.get('tls') else 'static'
             glob_lines.append('%s %s;%s' % (ct, g, note))
     for ct, g in getattr(tu, 'tls_locals', []):
         glob_lines.append('%s %s; _Bool %s_constructed; /* function-local thread_local */' % (ct, g, g))
@@ -1908,6 +1914,8 @@ def extract(src, incs, defs, symbolic=(), extra_flags=(), only_main_and_headers=
         'functions': [c for c, _ in em.emitted],
         'stats': em.func_stats,
         'static_facts': tu.static_facts,
+        'storage': getattr(tu, 'storage', {}),
+        'deleted': getattr(tu, 'deleted', []),
         'records': [c for c, _ in tu.records],
         'constants': {k: None for k in tu.consts},
     }
